@@ -1,3 +1,6 @@
+import Ntrip.Guards.FramingConsts
+import Ntrip.Guards.Framing
+import Ntrip.Guards.Apps_tolerance
 import Ntrip.Properties.C09
 import Ntrip.Generated.Consts
 import Ntrip.Generated.Layouts
@@ -36,5 +39,14 @@ theorem tie_guards_reader : type_of% Ntrip.Guards.reader := Ntrip.Guards.reader
 
 /-- Tie T1 (guards): the conditions and loops of `HandleMessagesUntilEOF`. -/
 theorem tie_guards_fanout : type_of% Ntrip.Guards.fanout := Ntrip.Guards.fanout
+
+/-- Tie T1: the tolerance and the retry pause are read from their own configuration fields. -/
+theorem tie_tolerance_accessors : type_of% Ntrip.Guards.tolerance_accessors := Ntrip.Guards.tolerance_accessors
+
+/-- Tie T1: the guards and loop headers of the framing code this property builds on. -/
+theorem tie_framing : type_of% Ntrip.Guards.framing := Ntrip.Guards.framing
+
+/-- Tie T1: the literals of the framing model are the constants of the source. -/
+theorem tie_framing_consts : type_of% Ntrip.Guards.framing_consts := Ntrip.Guards.framing_consts
 
 end Ntrip.C09
